@@ -29,7 +29,7 @@ def _header(eol, spaces, lower, fold, dup, extra, framing_field, status=b'200 OK
         lines.append(b'\t second part')
     if dup:
         lines.append(name(b'Set-Cookie') + b':' + sp + b'a=1')
-        lines.append(name(b'Set-Cookie') + b':' + sp + b'b=2')
+        lines.append(name(b'Set-Cookie') + b':' + sp + b'b=' + b'v' * 5000)     # pushes the header block beyond 4 KiB (one read chunk of the recorder)
     if extra:
         lines.append(b'X-Empty:')
     if framing_field:
@@ -178,11 +178,44 @@ def _tempfile_fault(k, cuts):
     return failed or not injected                       # an injected failure must not pass silently
 
 
+import gzip as _gzip
+import zlib as _zlib
+_CODED = [(b'gzip', _gzip.compress(b'hello world')), (b'deflate', _zlib.compress(b'hello world')), (b'x-gzip', _gzip.compress(b'')), (b'identity', b'hello world')]
+
+
+def _coded_block(kind_i, framing, cuts):
+    """A response with a content coding: the record holds the body still in its content coding (the wire bytes), whatever the framing."""
+    ce, enc = pick(_CODED, kind_i)
+    head = b'HTTP/1.1 200 OK\r\nContent-Encoding: ' + ce + b'\r\n'
+    if framing == 0:
+        msg = head + b'Content-Length: ' + str(len(enc)).encode() + b'\r\n\r\n' + enc
+    elif framing == 1:
+        msg = head + b'Transfer-Encoding: chunked\r\n\r\n' + (('%x' % len(enc)).encode() + b'\r\n' + enc + b'\r\n' if enc else b'') + b'0\r\n\r\n'
+    else:
+        msg = head + b'\r\n' + enc
+    fs = fakefs.FS()
+    rec = warcenv.new_recorder(fs)
+    warcenv.http_exchange(rec, _URL, msg, cuts)
+    records = warcenv.read_records(fs.files.get('out.warc'), False)
+    if records is None:
+        return False
+    resp = [r for r in records if warcenv.field(r, 'WARC-Type') == 'response']
+    hit('coded')
+    return len(resp) == 1 and resp[0]['block'] == msg
+
+
 def _fx(**kw):
     return {k: str(v) for k, v in kw.items()}
 
 
 HARNESSES = [
+    H('coded_block', '_coded_block', 'kind_i: int, framing: int, cuts: List[int]', pre=['0 <= kind_i <= 3 and 0 <= framing <= 2 and len(cuts) <= 1'],
+      parts=[{'tag': 'f%d' % f, 'fix': {'framing': str(f)}} for f in range(3)],
+      timeout={'quick': 250, 'thorough': 600}, samples=[(0, 2, []), (1, 0, [3]), (2, 1, [])], need=['coded'],
+      funcs=['wpull/protocol/http/stream.py:Stream._read_body_until_close', 'wpull/protocol/http/stream.py:Stream._read_body_by_length',
+             'wpull/protocol/http/stream.py:Stream._read_body_by_chunk'],
+      doc='gzip / deflate / x-gzip / identity coded responses (real zlib output, concrete) under the three framings and a symbolic read '
+          'cut: the response record block is the wire message with the body still in its content coding'),
     H('tempfile_fault', '_tempfile_fault', 'k: int, cuts: List[int]', pre={'quick': ['1 <= k <= 12 and len(cuts) == 0'], 'thorough': ['1 <= k <= 12 and len(cuts) <= 2']},
       parts=[{'tag': 'k%d' % lo, 'pre': ['%d <= k <= %d' % (lo, lo + 3)]} for lo in (1, 5, 9)], timeout={'quick': 250, 'thorough': 600},
       samples=[(3, []), (6, [1]), (12, [])], need=['failed'],
